@@ -55,7 +55,7 @@ def floors(tier):
     scale = 1 if tier == 'quick' else 20
     return {'evaluations': 500 * scale, 'three_way_compared': 400 * scale, 'engine_sqlite': 200 * scale,
             'engine_duckdb': 200 * scale, 'join_cases': 60 * scale, 'set_cases': 10 * scale, 'grouped_cases': 40 * scale,
-            'negation_cases': 10 * scale, 'reader_reads_checked': 12}
+            'negation_cases': 10 * scale, 'reader_reads_checked': 12, 'nested_limit_cases': 20 * scale}
 
 
 # ------------------------------------------------------------------------------------------------ parser level
@@ -129,8 +129,9 @@ def supported(ast, env):
     """Reason why the statement is outside the comparable fragment (None = comparable)."""
     from vlib import dsleval, dslgen
 
-    if dsleval.inner_rows(ast):
-        return 'nested limit (content depends on tie order)'
+    for path, node in dslgen.walk(ast):
+        if node[0] == 'query' and node[7] is not None and path != () and not node[6]:
+            return 'nested limit without ordering (content depends on storage order)'
     for _, node in dslgen.walk(ast):
         if node[0] == 'literal' and node[2] == 'date':
             return 'date literal'
@@ -286,6 +287,15 @@ def check_statement(ctx, engines, raw, data, datakey):
         ctx.count('grouped_cases')
     if 'not' in feats:
         ctx.count('negation_cases')
+    if dsleval.inner_rows(ast):
+        # a nested ORDER BY + LIMIT is only comparable when the inner order is total on this data
+        for path, node in dslgen.walk(ast):
+            if node[0] == 'query' and node[7] is not None and path != ():
+                keys = _sort_keys(node, data)
+                if keys is None or len(set(keys)) != len(keys) or any(v is None for k in keys for v in k):
+                    ctx.count('skipped_nested_limit_with_ties')
+                    return
+        ctx.count('nested_limit_cases')
     engines.load(data, datakey)
     for name, conn in engines.conns.items():
         ctx.count(f'engine_{name}')
@@ -590,6 +600,23 @@ def run(ctx):
                 continue
             k = rng.randrange(len(datasets))
             check_statement(ctx, engines, ast, datasets[k], k)
+        # nested ORDER BY + LIMIT needs a total inner order: NULL-free tables with distinct rows in shuffled storage order
+        ordered = []
+        for k in range(3):
+            drng = ctx.rng('nullfree', k)
+            domain = {'Integer': list(range(-2, 7)), 'Float': [0.5, 1.5, -1.0, 2.0, 3.5, 4.25], 'String': list('abcdef'),
+                      'Boolean': [True, False], 'Date': ['2020-01-01', '2021-06-30', '2019-03-03']}
+            tables = {}
+            for name, fields in {**dslgen.SCHEMA, **dslgen.TWIN}.items():
+                rows = set()
+                while len(rows) < 6:
+                    rows.add(tuple(drng.choice(domain[kind]) for _, kind in fields))
+                tables[name] = drng.sample(sorted(rows, key=repr), len(rows))
+            ordered.append(tables)
+        for number in range(ctx.pick(40, 300)):
+            ast = nested_limit_statement(rng, number)
+            k = number % len(ordered)
+            check_statement(ctx, engines, ast, ordered[k], f'nullfree{k}')
         for ast in DIRECTED:
             for k in range(min(3, len(datasets))):
                 check_statement(ctx, engines, ast, datasets[k], k)
@@ -601,6 +628,31 @@ def run(ctx):
     for index in range(total):
         if ctx.mine(index):
             run_reader_history(ctx, index)
+
+
+def nested_limit_statement(rng, number):
+    """outer query / join over a reference of `inner ORDER BY <all columns> LIMIT n OFFSET k` (total inner order unless the
+    table holds duplicate rows - those cases are skipped by the tie check)."""
+    from vlib import dslgen as g
+
+    name = rng.choice(['A', 'B', 'C'])
+    columns = [c for c, kind in g.SCHEMA[name] if kind != 'Boolean']
+    rng.shuffle(columns)
+    keep = columns[:rng.randint(2, len(columns))]
+    inner = g.query(g.table(name), select=tuple(g.column(name, c) for c in keep),
+                    orderby=tuple((g.column(name, c), rng.choice(['asc', 'desc'])) for c in columns),
+                    rows=(rng.randint(1, 4), rng.randint(0, 2)))
+    alias = f'n{number}'
+    ref = g.reference(inner, alias)
+    numeric = [c for c in keep if dict(g.SCHEMA[name])[c] in ('Integer', 'Float')]
+    if number % 3 == 0 or not numeric:
+        return g.query(ref, select=tuple(g.column(alias, c) for c in keep))
+    if number % 3 == 1:
+        return g.query(ref, select=(g.column(alias, keep[0]),), where=g.cmp('>=', g.column(alias, numeric[0]), g.lit(0)))
+    other = rng.choice([t for t in ('A', 'B', 'C') if t != name])
+    ocol = next(c for c, kind in g.SCHEMA[other] if kind in ('Integer', 'Float'))
+    return g.query(g.join(ref, g.table(other), rng.choice(['inner', 'left']), g.cmp('==', g.column(alias, numeric[0]), g.column(other, ocol))),
+                   select=(g.column(alias, keep[0]), g.column(other, ocol)))
 
 
 def _directed():
